@@ -48,8 +48,11 @@ OUT_OF_SCOPE = {"field_init", "field_get_qnr", "field_get_cnr", "rand", "print",
 
 PAIRING_PARTS = {"BN_P256": "asan256", "SM9_P256": "asan256", "B12_P381": "asan381"}
 PLAIN256 = ["NIST_P256", "BSI_P256", "SECG_K256", "SM2_P256"]
-# thorough sweep: (cfg, parameter-set names tried) - only configurations on which the unchanged tree is silent
-SWEEP = {}
+# thorough sweep: configuration -> prime identifiers of relic_fp.h (activated with fp_param_set; no curve is needed for
+# the towers).  Only configurations of build.py on which the unchanged tree is silent (up to the known findings).
+SWEEP = {"asan315": ["B24_315"], "asan377": ["B12_377"], "asan382": ["BN_382"], "asan446": ["BN_446", "B12_446"],
+         "asan509": ["B24_509"], "asan638": ["BN_638", "B12_638", "K18_638", "SG18_638"]}
+SWEEP_NAMES = set(n for v in SWEEP.values() for n in v)
 
 
 def parts(tier):
@@ -60,7 +63,7 @@ def parts(tier):
          dict(part="B12_P381", cfg="asan381", shards=5 if q else 6)]
     if not q:
         for cfg in sorted(SWEEP):
-            P.append(dict(part="sweep-" + cfg, cfg=cfg, shards=4))
+            P.append(dict(part="sweep-" + cfg, cfg=cfg, shards=4 * len(SWEEP[cfg]) if cfg != "asan638" else 8))
     return P
 
 
@@ -431,7 +434,10 @@ def run(ctx, part):
         if not ctx.begin("setup|%s" % nm, [nm]):
             continue
         try:
-            if nm in PAIRING_PARTS:
+            if nm in SWEEP_NAMES:
+                r = R.call("fp_param_set", E[nm])
+                ok = not r.caught and R.L.fp_param_get() == E[nm]
+            elif nm in PAIRING_PARTS:
                 try:
                     R.pairing_set(nm)       # G1 + the twist type of this family (shapes of the sparse line elements)
                     ok = True
@@ -485,7 +491,7 @@ def run_param(ctx, R, pname, nparams):
     not_built, uncovered, absent_tower, outside = [], [], [], []
     # Towers above fp3 are claimed for p = 1 (mod 6) only: the Frobenius constants of the sextic towers are defined as
     # xi^((p-1)/6) (relic_fpx_field.c); on the plain primes with p = 2 (mod 3) the towers exist but lie outside that family.
-    if pname in PAIRING_PARTS or p % 6 == 1:
+    if pname in PAIRING_PARTS or pname in SWEEP_NAMES or p % 6 == 1:
         allowed = set(F)
     else:
         allowed = set(d for d in F if d <= 3)
@@ -582,7 +588,11 @@ def run_param(ctx, R, pname, nparams):
     # ---- phase 2: random cases per degree
     for d in sorted(flist):
         q, t = COUNTS[d]
-        n = ctx.n(q, t) // ctx.nshards // nparams
+        if pname in SWEEP_NAMES:
+            t = 2 * q               # larger primes, slower models: the sweep runs at twice the quick volume per prime
+            n = ctx.n(q, t) // ctx.nshards
+        else:
+            n = ctx.n(q, t) // ctx.nshards // nparams
         fl = flist[d]
         w = [HEAVY.get(s, 1.0) * (3.0 if (s in BIN and BIN[s] == "mul") or (s in UN and UN[s] == "sqr") or s in DXS else 1.0)
              for s in fl]
@@ -640,7 +650,7 @@ class Handlers(object):
 
     def fk(self, key, what):
         """failure key: case key | input class, alias and other case parameters | what disagreed @ parameter set"""
-        return "%s|%s|%s@%s" % (key, ",".join(self.tok), what, self.T.pname)
+        return "%s|%s|%s@%s;p%%8=%d" % (key, ",".join(self.tok), what, self.T.pname, self.T.p % 8)
 
     def verdict(self, key, ptr, d, exp, idxs=None):
         """value + canonical form of an output"""
@@ -1245,6 +1255,8 @@ class Handlers(object):
         F = T.F[d]
         o = T.objs(d)
         # the order-r decomposition path needs elements of the prime-order subgroup
+        if d == 12 and not T.r:
+            return          # no pairing curve is active (plain primes, sweep): the routine reads the curve order
         if d == 12 and T.r:
             cls = "ordr"
             a = T.flat(d, "ordr")
